@@ -24,7 +24,9 @@ import (
 	"net/http"
 	"net/http/httputil"
 	"net/url"
+	"strconv"
 	"strings"
+	"sync/atomic"
 	"time"
 
 	libio "github.com/fatedier/golib/io"
@@ -37,6 +39,8 @@ import (
 )
 
 var ErrNoRouteFound = errors.New("no route found")
+
+var registrationSeq atomic.Uint64
 
 type HTTPReverseProxyOptions struct {
 	ResponseHeaderTimeoutS int64
@@ -85,7 +89,10 @@ func NewHTTPReverseProxy(option HTTPReverseProxyOptions, vhostRouter *Routers) *
 				req.URL.Host = rc.Domain + "." +
 					base64.StdEncoding.EncodeToString([]byte(rc.Location)) + "." +
 					base64.StdEncoding.EncodeToString([]byte(rc.RouteByHTTPUser)) + "." +
-					base64.StdEncoding.EncodeToString([]byte(endpoint))
+					base64.StdEncoding.EncodeToString([]byte(endpoint)) + "." +
+					// backend connections kept alive for an earlier registration of the same route
+					// (possibly another proxy's) must never be reused for this one
+					strconv.FormatUint(rc.registrationID, 10)
 
 				for k, v := range rc.Headers {
 					req.Header.Set(k, v)
@@ -147,6 +154,7 @@ func NewHTTPReverseProxy(option HTTPReverseProxyOptions, vhostRouter *Routers) *
 // Register register the route config to reverse proxy
 // reverse proxy will use CreateConnFn from routeCfg to create a connection to the remote service
 func (rp *HTTPReverseProxy) Register(routeCfg RouteConfig) error {
+	routeCfg.registrationID = registrationSeq.Add(1)
 	err := rp.vhostRouter.Add(routeCfg.Domain, routeCfg.Location, routeCfg.RouteByHTTPUser, &routeCfg)
 	if err != nil {
 		return err
